@@ -179,7 +179,7 @@ Proof.
   intro Hz. cbn [benc app bdec]. unfold isb at 1. rewrite N_of_c_i. cbn [N.eqb Pos.eqb].
   rewrite <- app_assoc. cbn [app].
   rewrite find_split_app; [|apply dec_of_Z_no_e | unfold isb; rewrite N_of_c_e; reflexivity].
-  rewrite py_int_dec_of_Z by exact Hz. reflexivity.
+  rewrite strict_int_dec_of_Z by exact Hz. reflexivity.
 Qed.
 
 Lemma bdec_str steps d s T : small s ->
@@ -195,7 +195,7 @@ Proof.
   rewrite (isb_digit 105 b Hb) by lia. rewrite (isb_digit 108 b Hb) by lia. rewrite (isb_digit 100 b Hb) by lia.
   change (b :: r ++ c_colon :: s ++ T) with ((b :: r) ++ c_colon :: (s ++ T)).
   rewrite find_split_app.
-  - rewrite <- E. rewrite py_int_dec_of_N by exact Hs.
+  - rewrite <- E. rewrite strict_len_dec_of_N by exact Hs.
     assert (Hneg : (Z.of_N (blen s) <? 0)%Z = false) by (apply Z.ltb_ge; lia). rewrite Hneg.
     rewrite N2Z.id. rewrite take_clamped_app. reflexivity.
   - eapply Forall_impl; [|exact Hd]. intros x Hx. apply isb_digit; [exact Hx|lia].
